@@ -284,23 +284,31 @@ def check_parts(case, b, form, exprs):
                 same_values(exp, form_values(fa, mk(), None), "action: a(f, v) with part k replaced by f[k]")
             else:
                 new = [c for c in fa.coefficients() if c not in form.coefficients()]
-                sub = {}
+                # trial functions the form really depends on (a term like inner(dev(I), grad(u)) vanishes once
+                # action has expanded it: no coefficient is needed for such a part)
+                dep = []
                 for u in present_u:
+                    try:
+                        same_values(F_uv, form_values(form, mk(zero=[u]), None), "dependence")
+                    except Violation:
+                        dep.append(u)
+                for u in dep:
                     cands = [c for c in new if c.ufl_function_space() == u.ufl_function_space()]
                     if not cands:
                         raise Violation("action: no new coefficient on the space of a replaced trial function", {"kind": "action-no-coefficient"})
-                if len(new) != len(present_u):
-                    raise Violation(f"action: {len(present_u)} trial functions but {len(new)} new coefficients", {"kind": "action-coefficient-count"})
+                if not (len(dep) <= len(new) <= len(present_u)):
+                    raise Violation(f"action: {len(present_u)} trial functions ({len(dep)} of which matter) but {len(new)} new coefficients",
+                                    {"kind": "action-coefficient-count"})
                 # which new coefficient replaced which part is not observable from outside when spaces coincide:
                 # accept any assignment that reproduces the value
                 import itertools
 
                 got = form_values(fa, mk(), None)
                 ok = False
-                for perm in itertools.permutations(new):
-                    if any(c.ufl_function_space() != u.ufl_function_space() for c, u in zip(perm, present_u)):
+                for perm in itertools.permutations(new, len(dep)):
+                    if any(c.ufl_function_space() != u.ufl_function_space() for c, u in zip(perm, dep)):
                         continue
-                    exp = form_values(form, mk(subst=dict(zip(present_u, perm))), None)
+                    exp = form_values(form, mk(subst=dict(zip(dep, perm)), zero=[u for u in present_u if u not in dep]), None)
                     try:
                         same_values(exp, got, "action")
                         ok = True
